@@ -225,6 +225,20 @@ func (p place) String() string {
 	return p.encl + ":" + l + "|" + r
 }
 
+// cause names the ROOT CAUSE class of a failure at a place, for signatures: one printing routine per node
+// kind, so "a comment / a line break inside a <Kind>" is what a maintainer would call one bug.  The only
+// cause that is not tied to a node kind is go/printer's heuristic for a general comment that leads a line.
+// kind: "/*", "//" or "gap" (no comment involved).  The exact place goes into the detail text.
+func (p place) cause(kind string) string {
+	if kind == "gap" {
+		return "layout-in-" + p.encl
+	}
+	if kind == "/*" && (p.left == ";" || p.left == "BOF" || p.left == "{") {
+		return "leading-general-comment-before-statement"
+	}
+	return "comment-in-" + p.encl
+}
+
 // placeAt finds the structural place of byte offset off (and the following n bytes) in src.
 func placeAt(src []byte, file *ast.File, fset *token.FileSet, off, n int) place {
 	rt, _ := scanAll(src)
@@ -606,7 +620,9 @@ func checkCase(which string, idx int, c *Case) hlib.Result {
 	switch {
 	case len(cis) == 0:
 		if which == "c20" {
-			sig += ":" + diffPlace(r).String() + ":gap"
+			pl := diffPlace(r)
+			sig += ":" + pl.cause("gap")
+			vd.detail = "place " + pl.String() + "\n" + vd.detail
 		}
 	default:
 		// try every single comment alone; the first that fails alone carries the blame
@@ -634,7 +650,9 @@ func checkCase(which string, idx int, c *Case) hlib.Result {
 		if which != "c21" && judgeSrc(render(c, noCm)) {
 			// fails without any comment: the comments are not the cause
 			if which == "c20" {
-				sig += ":" + diffPlace(runFormat(render(c, noCm), c.Cls)).String() + ":gap"
+				pl := diffPlace(runFormat(render(c, noCm), c.Cls))
+				sig += ":" + pl.cause("gap")
+				vd.detail = "place " + pl.String() + " (fails without the comments too)\n" + vd.detail
 			}
 			break
 		}
@@ -643,19 +661,29 @@ func checkCase(which string, idx int, c *Case) hlib.Result {
 		}
 		if blamed >= 0 {
 			m := c.Cms[blamed]
-			sig += ":" + modelPlace(c, m.B).String() + ":" + cmKindName(m.K)
+			pl := modelPlace(c, m.B)
+			sig += ":" + pl.cause(cmKindName(m.K))
+			vd.detail = "place " + pl.String() + ":" + cmKindName(m.K) + "\n" + vd.detail
 		} else {
 			// only the combination fails
 			j := 0
 			if blame >= 0 && blame < len(c.Cms) {
 				j = blame
 			}
-			var parts []string
+			var parts, places []string
+			seen := map[string]bool{}
 			for _, m := range c.Cms {
-				parts = append(parts, modelPlace(c, m.B).String()+":"+cmKindName(m.K))
+				pl := modelPlace(c, m.B)
+				places = append(places, pl.String()+":"+cmKindName(m.K))
+				if cs := pl.cause(cmKindName(m.K)); !seen[cs] {
+					seen[cs] = true
+					parts = append(parts, cs)
+				}
 			}
 			_ = j
+			sort.Strings(parts)
 			sig += ":pair:" + strings.Join(parts, "+")
+			vd.detail = "places " + strings.Join(places, " + ") + "\n" + vd.detail
 		}
 	}
 	res.V, res.Sig, res.Detail = vd.v, sig, vd.detail
